@@ -8,6 +8,9 @@ From MV Require Import C18.Model.
 Definition RF := Ret (Some Fail).
 Definition RO := Ret (Some Ok).
 Definition call (p : list stmt) := Call p false [].        (* call, result ignored / void *)
+(* H n b: failure handler / cleanup block number n with body b.  The numbers are
+   the "labels" of the coverage table (each must be entered in some compared case). *)
+Definition H (n : nat) (b : list stmt) : list stmt := Lbl n :: b.
 
 Definition ctor (op d : list stmt) (owns : list res) : scn := mkscn [] op d owns true false true.
 Definition oper (pre op d : list stmt) (owns : list res) : scn := mkscn pre op d owns true false true.
@@ -17,9 +20,9 @@ Definition oper (pre op d : list stmt) (owns : list res) : scn := mkscn pre op d
    b+3 = (num_buf >= 1), b+4 = new_bufs, b+5 = data_bufs[1], b+6 = new_ptr_buf,
    b+7 = (num_buf >= 2) *)
 Definition mpool_init (b : res) : list stmt :=
-  [ Alloc b; IfNull [b] [RF];
-    Alloc (b+1); IfNull [b+1] [Free b; SetNull b; RF];
-    Alloc (b+2); IfNull [b+2] [Free b; SetNull b; Free (b+1); SetNull (b+1); RF];
+  [ Alloc b; IfNull [b] (H 11 [RF]);
+    Alloc (b+1); IfNull [b+1] (H 12 [Free b; SetNull b; RF]);
+    Alloc (b+2); IfNull [b+2] (H 13 [Free b; SetNull b; Free (b+1); SetNull (b+1); RF]);
     Mark (b+3); Use (b+1); RO ].
 
 Definition mpool_destroy (b : res) : list stmt :=
@@ -29,17 +32,17 @@ Definition mpool_destroy (b : res) : list stmt :=
     SetNull b; SetNull (b+1); SetNull (b+2); SetNull (b+3); SetNull (b+5); SetNull (b+7) ].
 
 Definition mpool_ensure (b : res) : list stmt :=
-  [ Alloc (b+4); IfNull [b+4] [RF];
+  [ Alloc (b+4); IfNull [b+4] (H 14 [RF]);
     Use b;
-    Alloc (b+5); IfNull [b+5] [Free (b+4); RF];
-    Alloc (b+6); IfNull [b+6] [Free (b+5); Free (b+4); RF];
+    Alloc (b+5); IfNull [b+5] (H 15 [Free (b+4); RF]);
+    Alloc (b+6); IfNull [b+6] (H 16 [Free (b+5); Free (b+4); RF]);
     Free b; Move b (b+4);
     Use (b+1);
     Free (b+1); Move (b+1) (b+6);
     Mark (b+7); RO ].
 
 Definition mpool_alloc (b : res) : list stmt :=      (* pool full: grows first *)
-  [ Call (mpool_ensure b) false [RF]; Use (b+1); RO ].
+  [ Call (mpool_ensure b) false (H 17 [RF]); Use (b+1); RO ].
 
 Definition i_mpool_init := ctor (mpool_init 0) (mpool_destroy 0) [0; 1; 2].
 Definition i_mpool_ensure := oper [call (mpool_init 0)] (mpool_ensure 0) (mpool_destroy 0) [0; 1; 2; 5].
@@ -52,43 +55,49 @@ Definition chan_destroy : list stmt :=
     IfSet 2 [Use 2; Free 2; SetNull 2];
     IfSet 1 [Use 1; Free 1; SetNull 1];
     IfSet 0 [Use 0; Free 0; SetNull 0] ].
-Definition chan_except : list stmt := [ call chan_destroy; Ret None ].   (* channel_init_except: *)
+Definition chan_except : list stmt := H 20 [ call chan_destroy; Ret None ].   (* channel_init_except: *)
 
 Definition chan_init_mutex_orig : list stmt :=       (* flags = WRITE_MUTEX | READ_MUTEX; int ret = 0 *)
-  [ Alloc 0; IfNull [0] chan_except;
-    Alloc 1; IfNull [1] chan_except;
-    Alloc 2; IfNull [2] chan_except;
-    Alloc 3; IfNull [3] (SetRet Fail :: chan_except);
+  [ Alloc 0; IfNull [0] (H 21 chan_except);
+    Alloc 1; IfNull [1] (H 22 chan_except);
+    Alloc 2; IfNull [2] (H 23 chan_except);
+    Alloc 3; IfNull [3] (H 24 (SetRet Fail :: chan_except));
     Use 3; RO ].
 Definition chan_init_mutex : list stmt :=
-  [ Alloc 0; IfNull [0] (SetRet Fail :: chan_except);
-    Alloc 1; IfNull [1] (SetRet Fail :: chan_except);
-    Alloc 2; IfNull [2] (SetRet Fail :: chan_except);
-    Alloc 3; IfNull [3] (SetRet Fail :: chan_except);
+  [ Alloc 0; IfNull [0] (H 21 (SetRet Fail :: chan_except));
+    Alloc 1; IfNull [1] (H 22 (SetRet Fail :: chan_except));
+    Alloc 2; IfNull [2] (H 23 (SetRet Fail :: chan_except));
+    Alloc 3; IfNull [3] (H 24 (SetRet Fail :: chan_except));
     Use 3; RO ].
 Definition chan_init_default_orig : list stmt :=     (* flags = 0 = WRITE_MUTEX | READ_SYNC *)
-  [ Alloc 0; IfNull [0] chan_except;
-    Alloc 3; IfNull [3] (SetRet Fail :: chan_except);
+  [ Alloc 0; IfNull [0] (H 21 chan_except);
+    Alloc 3; IfNull [3] (H 24 (SetRet Fail :: chan_except));
     Use 3; RO ].
 Definition chan_init_default : list stmt :=
-  [ Alloc 0; IfNull [0] (SetRet Fail :: chan_except);
-    Alloc 3; IfNull [3] (SetRet Fail :: chan_except);
+  [ Alloc 0; IfNull [0] (H 21 (SetRet Fail :: chan_except));
+    Alloc 3; IfNull [3] (H 24 (SetRet Fail :: chan_except));
     Use 3; RO ].
 Definition chan_init_nolock : list stmt :=           (* WRITE_SINGLE | READ_BUSY: only blocks *)
-  [ Alloc 3; IfNull [3] (SetRet Fail :: chan_except); Use 3; RO ].
+  [ Alloc 3; IfNull [3] (H 24 (SetRet Fail :: chan_except)); Use 3; RO ].
 
 Definition i_chan_mutex_orig := ctor chan_init_mutex_orig chan_destroy [0; 1; 2; 3].
 Definition i_chan_mutex := ctor chan_init_mutex chan_destroy [0; 1; 2; 3].
 Definition i_chan_nolock := ctor chan_init_nolock chan_destroy [3].
 Definition i_chan_default_orig := ctor chan_init_default_orig chan_destroy [0; 3].
 Definition i_chan_default := ctor chan_init_default chan_destroy [0; 3].
+Definition chan_init_rmutex : list stmt :=           (* WRITE_SPIN | READ_MUTEX: read_mutex, read_cv, blocks *)
+  [ Alloc 1; IfNull [1] (H 22 (SetRet Fail :: chan_except));
+    Alloc 2; IfNull [2] (H 23 (SetRet Fail :: chan_except));
+    Alloc 3; IfNull [3] (H 24 (SetRet Fail :: chan_except));
+    Use 3; RO ].
+Definition i_chan_rmutex := ctor chan_init_rmutex chan_destroy [1; 2; 3].
 
 (* ================= sync/ring_buffer.c : 0 = blocks ================= *)
-Definition i_ring_buffer := ctor [Alloc 0; IfNull [0] [RF]; RO] [Free 0] [0].
+Definition i_ring_buffer := ctor [Alloc 0; IfNull [0] (H 25 [RF]); RO] [Free 0] [0].
 
 (* ================= sync/ma_ring.c =================
    0 = s_muggle_ma_ring_thread_ctx, 1 = ->buffer, 2 = list node of insert_thread_ctx *)
-Definition mar_insert : list stmt := [ Alloc 2; IfNull [2] [RF]; Use 2; RO ].
+Definition mar_insert : list stmt := [ Alloc 2; IfNull [2] (H 29 [RF]); Use 2; RO ].
 Definition mar_cleanup_orig : list stmt :=
   [ IfSet 0 [ (* join: rpos == wpos *)
               (* remove_thread_ctx waits for DONE, which only a listed node ever gets *)
@@ -97,17 +106,17 @@ Definition mar_cleanup_orig : list stmt :=
               Free 0; SetNull 0 ] ].
 Definition mar_init_orig : list stmt :=
   [ IfSet 0 [RO];
-    Alloc 0; IfNull [0] [RF]; Use 0;
-    Alloc 1; IfNull [1] [call mar_cleanup_orig; RF];
-    Call mar_insert true [call mar_cleanup_orig; RF];
+    Alloc 0; IfNull [0] (H 26 [RF]); Use 0;
+    Alloc 1; IfNull [1] (H 27 [call mar_cleanup_orig; RF]);
+    Call mar_insert true (H 28 [call mar_cleanup_orig; RF]);
     RO ].
 Definition mar_cleanup : list stmt :=
   [ IfSet 0 [ IfNull [2] [Stuck]; Free 2; Free 1; Free 0; SetNull 0 ] ].
 Definition mar_init : list stmt :=
   [ IfSet 0 [RO];
-    Alloc 0; IfNull [0] [RF]; Use 0;
-    Alloc 1; IfNull [1] [Free 0; SetNull 0; RF];
-    Call mar_insert true [Free 1; Free 0; SetNull 0; RF];
+    Alloc 0; IfNull [0] (H 26 [RF]); Use 0;
+    Alloc 1; IfNull [1] (H 27 [Free 0; SetNull 0; RF]);
+    Call mar_insert true (H 28 [Free 1; Free 0; SetNull 0; RF]);
     RO ].
 Definition i_ma_ring_orig := ctor mar_init_orig mar_cleanup_orig [0; 1; 2].
 Definition i_ma_ring := ctor mar_init mar_cleanup [0; 1; 2].
@@ -115,12 +124,12 @@ Definition i_ma_ring := ctor mar_init mar_cleanup [0; 1; 2].
 (* ================= sync/double_buffer.c : 0 = buf[0].datas, 1 = buf[1].datas ================= *)
 Definition dbuf_destroy : list stmt := [ Free 0; Free 1 ].
 Definition dbuf_init_orig : list stmt :=
-  [ Alloc 0; IfNull [0] [RF];                 (* i == 0 *)
-    Alloc 1; IfNull [1] [Free 0; RF];          (* i == 1: free(buf->buf[0].datas) *)
+  [ Alloc 0; IfNull [0] (H 30 [RF]);                 (* i == 0 *)
+    Alloc 1; IfNull [1] (H 31 [Free 0; RF]);          (* i == 1: free(buf->buf[0].datas) *)
     RO ].
 Definition dbuf_init : list stmt :=
-  [ Alloc 0; IfNull [0] [RF];
-    Alloc 1; IfNull [1] [Free 0; SetNull 0; RF];
+  [ Alloc 0; IfNull [0] (H 30 [RF]);
+    Alloc 1; IfNull [1] (H 31 [Free 0; SetNull 0; RF]);
     RO ].
 Definition i_dbuf_orig := ctor dbuf_init_orig dbuf_destroy [0; 1].
 Definition i_dbuf := ctor dbuf_init dbuf_destroy [0; 1].
@@ -128,46 +137,51 @@ Definition i_dbuf := ctor dbuf_init dbuf_destroy [0; 1].
 (* ================= sync/array_blocking_queue.c : 0 = datas =================
    (mutex / condvar initialisation is not an allocation and cannot be failed
    by the fault class of the property) *)
-Definition i_abq := ctor [Alloc 0; IfNull [0] [RF]; RO] [Free 0] [0].
+Definition i_abq := ctor [Alloc 0; IfNull [0] (H 32 [RF]); RO] [Free 0] [0].
 
 (* ================= memory/sowr_memory_pool.c : 0 = blocks ================= *)
 Definition guarded_free1 : list stmt := [ IfSet 0 [Free 0; SetNull 0] ].
 Definition i_sowr_orig := ctor [Alloc 0; Use 0; RO] guarded_free1 [0].
-Definition i_sowr := ctor [Alloc 0; IfNull [0] [RF]; Use 0; RO] guarded_free1 [0].
+Definition i_sowr := ctor [Alloc 0; IfNull [0] (H 33 [RF]); Use 0; RO] guarded_free1 [0].
 
 (* ================= memory/threadsafe_memory_pool.c : 0 = data, 1 = ptrs ================= *)
 Definition guarded_free2 : list stmt := [ IfSet 0 [Free 0; SetNull 0]; IfSet 1 [Free 1; SetNull 1] ].
 Definition ts_init_orig : list stmt :=
   [ Alloc 0; Alloc 1;
-    IfNull [0; 1] [ IfSet 0 [Free 0]; IfSet 1 [Free 1]; RF ];
+    IfNull [0; 1] (H 34 [ IfSet 0 [Free 0]; IfSet 1 [Free 1]; RF ]);
     Use 0; Use 1; RO ].
 Definition ts_init : list stmt :=
   [ Alloc 0; Alloc 1;
-    IfNull [0; 1] [ IfSet 0 [Free 0; SetNull 0]; IfSet 1 [Free 1; SetNull 1]; RF ];
+    IfNull [0; 1] (H 34 [ IfSet 0 [Free 0; SetNull 0]; IfSet 1 [Free 1; SetNull 1]; RF ]);
     Use 0; Use 1; RO ].
 Definition i_ts_orig := ctor ts_init_orig guarded_free2 [0; 1].
 Definition i_ts := ctor ts_init guarded_free2 [0; 1].
 
 (* ================= memory/ring_memory_pool.c : 0 = blocks ================= *)
-Definition i_ring_pool := ctor [Alloc 0; IfNull [0] [RF]; Use 0; RO] [Free 0] [0].
+Definition i_ring_pool := ctor [Alloc 0; IfNull [0] (H 36 [RF]); Use 0; RO] [Free 0] [0].
 
 (* ================= memory/pointer_slot.c : 0 = slots, 1 = pp_slots ================= *)
-Definition i_pointer_slot := ctor ts_init guarded_free2 [0; 1].
+Definition pslot_init : list stmt :=
+  [ Alloc 0; Alloc 1;
+    IfNull [0; 1] (H 35 [ IfSet 0 [Free 0; SetNull 0]; IfSet 1 [Free 1; SetNull 1]; RF ]);
+    Use 0; Use 1; RO ].
+Definition i_pointer_slot := ctor pslot_init guarded_free2 [0; 1].
 
 (* ================= memory/bytes_buffer.c, time/flow_controller.c ================= *)
-Definition i_bytes_buffer := ctor [Alloc 0; IfNull [0] [RF]; RO] guarded_free1 [0].
-Definition i_flow_ctl := ctor [Alloc 0; IfNull [0] [RF]; Use 0; RO] guarded_free1 [0].
+Definition i_bytes_buffer := ctor [Alloc 0; IfNull [0] (H 37 [RF]); RO] guarded_free1 [0].
+Definition i_flow_ctl := ctor [Alloc 0; IfNull [0] (H 38 [RF]); Use 0; RO] guarded_free1 [0].
 
 (* ================= dsaa: array_list / heap / stack : 0 = nodes, 1 = new_nodes ================= *)
-Definition arr_init : list stmt := [ Alloc 0; IfNull [0] [RF]; RO ].
-Definition arr_ensure : list stmt := [ Alloc 1; IfNull [1] [RF]; Use 0; Use 1; Free 0; Move 0 1; RO ].
-Definition arr_insert_grow : list stmt := [ Call arr_ensure false [RF]; Use 0; RO ].
+Definition arr_init : list stmt := [ Alloc 0; IfNull [0] (H 40 [RF]); RO ].
+Definition arr_ensure : list stmt := [ Alloc 1; IfNull [1] (H 41 [RF]); Use 0; Use 1; Free 0; Move 0 1; RO ].
+Definition arr_insert_grow : list stmt := [ Call arr_ensure false (H 42 [RF]); Use 0; RO ].
 Definition arr_destroy : list stmt := [ Free 0 ].
 Definition arr_destroy_g : list stmt := guarded_free1.     (* heap_destroy: if (nodes) { free; = NULL } *)
 
 Definition i_array_list_init := ctor arr_init arr_destroy [0].
 Definition i_array_list_ensure := oper [call arr_init] arr_ensure arr_destroy [0].
 Definition i_array_list_insert_grow := oper [call arr_init] arr_insert_grow arr_destroy [0].
+Definition i_array_list_insert_grow2 := oper [call arr_init] arr_insert_grow arr_destroy [0].  (* muggle_array_list_insert *)
 Definition i_heap_init := ctor arr_init arr_destroy_g [0].
 Definition i_heap_ensure := oper [call arr_init] arr_ensure arr_destroy_g [0].
 Definition i_heap_insert_grow := oper [call arr_init] arr_insert_grow arr_destroy_g [0].
@@ -179,18 +193,18 @@ Definition i_stack_push_grow := oper [call arr_init] arr_insert_grow arr_destroy
    q = ->pool, q+1 .. q+8 = the pool's own fields (mpool_* with b = q+1),
    q+9 = (head.next / tail.prev linked), q+10, q+11, q+12 = nodes obtained by malloc *)
 Definition pool_part_orig (q : res) : list stmt :=      (* if (capacity > 0) { ... } *)
-  [ Alloc q; IfNull [q] [RF];
-    Call (mpool_init (q+1)) false [Free q; RF] ].
+  [ Alloc q; IfNull [q] (H 43 [RF]);
+    Call (mpool_init (q+1)) false (H 44 [Free q; RF]) ].
 Definition pool_part (q : res) : list stmt :=
-  [ Alloc q; IfNull [q] [RF];
-    Call (mpool_init (q+1)) false [Free q; SetNull q; RF] ].
+  [ Alloc q; IfNull [q] (H 43 [RF]);
+    Call (mpool_init (q+1)) false (H 44 [Free q; SetNull q; RF]) ].
 Definition pool_destroy_part (q : res) : list stmt :=
   [ IfSet q [Use q; call (mpool_destroy (q+1)); Free q] ].
 Definition free_nodes (q : res) : list stmt :=          (* clear: free every malloc'ed node *)
   [ IfSet (q+12) [Use (q+12); Free (q+12); SetNull (q+12)];
     IfSet (q+11) [Use (q+11); Free (q+11); SetNull (q+11)];
     IfSet (q+10) [Use (q+10); Free (q+10); SetNull (q+10)] ].
-Definition node_alloc (n : res) : list stmt := [ Alloc n; IfNull [n] [RF]; Use n; RO ].
+Definition node_alloc (n : res) : list stmt := [ Alloc n; IfNull [n] (H 45 [RF]); Use n; RO ].
 Definition pool_owns (q : res) : list res := [q; q+1; q+2; q+3].
 
 (* avl_tree.c / trie.c: no list links *)
@@ -198,9 +212,9 @@ Definition tree_init_orig (q : res) := pool_part_orig q ++ [RO].
 Definition tree_init (q : res) := pool_part q ++ [RO].
 Definition tree_init0 : list stmt := [RO].                  (* capacity == 0 *)
 Definition tree_destroy (q : res) := free_nodes q ++ pool_destroy_part q.
-Definition tree_insert (q n : res) : list stmt := [ Call (node_alloc n) false [RF]; RO ].
+Definition tree_insert (q n : res) : list stmt := [ Call (node_alloc n) false (H 46 [RF]); RO ].
 Definition tree_insert_pool (q : res) : list stmt :=     (* node from the (full) pool *)
-  [ Use q; Call (mpool_alloc (q+1)) false [RF]; RO ].
+  [ Use q; Call (mpool_alloc (q+1)) false (H 47 [RF]); RO ].
 
 Definition i_avl_init_orig := ctor (tree_init_orig 0) (tree_destroy 0) (pool_owns 0).
 Definition i_avl_init := ctor (tree_init 0) (tree_destroy 0) (pool_owns 0).
@@ -212,7 +226,8 @@ Definition i_trie_init_orig := ctor (tree_init_orig 0) (tree_destroy 0) (pool_ow
 Definition i_trie_init := ctor (tree_init 0) (tree_destroy 0) (pool_owns 0).
 Definition i_trie_insert1 := oper [call tree_init0] (tree_insert 0 10) (tree_destroy 0) [10].
 Definition trie_insert3 : list stmt :=                     (* key "abc": one node per byte *)
-  [ Call (node_alloc 10) false [RF]; Call (node_alloc 11) false [RF]; Call (node_alloc 12) false [RF]; RO ].
+  [ Call (node_alloc 10) false (H 48 [RF]); Call (node_alloc 11) false (H 49 [RF]);
+    Call (node_alloc 12) false (H 50 [RF]); RO ].
 Definition i_trie_insert3 :=
   mkscn [call tree_init0] trie_insert3 (tree_destroy 0) [10; 11; 12] true true true.
 
@@ -237,12 +252,12 @@ Definition i_queue_enqueue :=
 
 (* hash_table.c: 20 = nodes (bucket array), 21 = (table_size != 0) *)
 Definition ht_fail_nodes : list stmt :=
-  [ IfSet 0 [Use 0; call (mpool_destroy 1); Free 0; SetNull 0]; RF ].
+  H 51 [ IfSet 0 [Use 0; call (mpool_destroy 1); Free 0; SetNull 0]; RF ].
 Definition ht_init_orig : list stmt :=
   pool_part_orig 0 ++ [ Mark 21; Alloc 20; IfNull [20] ht_fail_nodes; Use 20; RO ].
 Definition ht_init : list stmt :=
   pool_part 0 ++ [ Alloc 20; IfNull [20] ht_fail_nodes; Mark 21; Use 20; RO ].
-Definition ht_init0 : list stmt := [ Alloc 20; IfNull [20] [RF]; Mark 21; Use 20; RO ].
+Definition ht_init0 : list stmt := [ Alloc 20; IfNull [20] (H 52 [RF]); Mark 21; Use 20; RO ].
 Definition ht_destroy : list stmt :=
   IfSet 21 [Use 20] :: free_nodes 0 ++ pool_destroy_part 0 ++ [Free 20].
 Definition i_ht_init_orig := ctor ht_init_orig ht_destroy (pool_owns 0 ++ [20]).
@@ -250,49 +265,68 @@ Definition i_ht_init := ctor ht_init ht_destroy (pool_owns 0 ++ [20]).
 Definition i_ht_put :=
   oper [call ht_init0; call (node_alloc 10)] (Use 20 :: tree_insert 0 11) ht_destroy [20; 10; 11].
 
+(* more inserters: node from malloc through the other entry point, node from a full pool *)
+Definition i_ll_insert :=                                   (* muggle_linked_list_insert *)
+  oper [call (ll_init0 0); call (node_alloc 10)] (tree_insert 0 11) (list_destroy 0) [10; 11].
+Definition i_ll_append_pool_grow :=
+  oper [call (ll_init 0)] (tree_insert_pool 0) (list_destroy 0) (pool_owns 0 ++ [6]).
+Definition i_queue_enqueue_pool_grow :=
+  oper [call (queue_init 0)] (tree_insert_pool 0) (list_destroy 0) (pool_owns 0 ++ [6]).
+Definition i_trie_insert_pool_grow :=
+  oper [call (tree_init 0)] (tree_insert_pool 0) (tree_destroy 0) (pool_owns 0 ++ [6]).
+Definition i_ht_put_pool_grow :=
+  oper [call ht_init] (Use 20 :: tree_insert_pool 0) ht_destroy (pool_owns 0 ++ [20; 6]).
+Definition i_mpool_alloc_grow_capped :=                     (* max_delta_cap set: same code path *)
+  oper [call (mpool_init 0)] (mpool_alloc 0) (mpool_destroy 0) [0; 1; 2; 5].
+
 (* sort.c muggle_merge_sort: scratch array allocated and freed inside *)
-Definition i_merge_sort := ctor [Alloc 0; IfNull [0] [RF]; Use 0; Free 0; RO] [] [].
+Definition i_merge_sort := ctor [Alloc 0; IfNull [0] (H 53 [RF]); Use 0; Free 0; RO] [] [].
 
 (* ================= event =================
    0 = evloop, 1 = ctx_list, 2.. = ctx_list's pool (dsaa numbering with q = 2, so
    11 = head linked, 12 = appended node), 30 = ev_signal, 31 = evfd,
    32 = epfd, 33 = events, 34 = poll fds, 35 = poll nodes *)
-Definition evsig_init (fd : res) : list stmt := [ Alloc fd; IfNull [fd] [RF]; RO ].
+Definition evsig_init (fd : res) : list stmt := [ Alloc fd; IfNull [fd] (H 54 [RF]); RO ].
 Definition evsig_destroy (fd : res) : list stmt := [ IfSet fd [Free fd; SetNull fd] ].
 Definition i_ev_signal := ctor (evsig_init 31) (evsig_destroy 31) [31].
 
 Definition evloop_destroy : list stmt :=
   [ IfSet 30 [Use 30; call (evsig_destroy 31); Free 30; SetNull 30];
     IfSet 1 [Use 1; call (list_destroy 2); Free 1; SetNull 1] ].
-Definition evloop_except : list stmt := [ call evloop_destroy; RF ].
+Definition evloop_except : list stmt := H 55 [ call evloop_destroy; RF ].     (* muggle_evloop_init_except: *)
 Definition evloop_init (pool : bool) : list stmt :=
-  [ Alloc 1; IfNull [1] evloop_except;
-    Call (if pool then ll_init 2 else ll_init0 2) false ([Free 1; SetNull 1] ++ evloop_except);
-    Alloc 30; IfNull [30] evloop_except;
-    Call (evsig_init 31) false ([Free 30; SetNull 30] ++ evloop_except);
+  [ Alloc 1; IfNull [1] (H 56 evloop_except);
+    (* label 157: muggle_linked_list_init(list, 0) makes no acquisition and cannot fail *)
+    Call (if pool then ll_init 2 else ll_init0 2) false (H (if pool then 57 else 157) ([Free 1; SetNull 1] ++ evloop_except));
+    Alloc 30; IfNull [30] (H 58 evloop_except);
+    Call (evsig_init 31) false (H 59 ([Free 30; SetNull 30] ++ evloop_except));
     RO ].
 
 Definition epoll_destroy : list stmt := [ IfSet 33 [Free 33; SetNull 33]; IfSet 32 [Free 32; SetNull 32] ].
-Definition epoll_except : list stmt := [ call epoll_destroy; RF ].
+Definition epoll_except : list stmt := H 60 [ call epoll_destroy; RF ].        (* evloop_init_epoll_except: *)
 Definition epoll_init : list stmt :=
-  [ Alloc 32; IfNull [32] epoll_except; Alloc 33; IfNull [33] epoll_except; RO ].
+  [ Alloc 32; IfNull [32] (H 61 epoll_except); Alloc 33; IfNull [33] (H 62 epoll_except); RO ].
 Definition poll_destroy : list stmt := [ IfSet 34 [Free 34; SetNull 34]; IfSet 35 [Free 35; SetNull 35] ].
-Definition poll_except : list stmt := [ call poll_destroy; RF ].
+Definition poll_except : list stmt := H 63 [ call poll_destroy; RF ].          (* muggle_evloop_init_poll_except: *)
 Definition poll_init : list stmt :=
-  [ Alloc 34; IfNull [34] poll_except; Alloc 35; IfNull [35] poll_except; Use 34; Use 35; Use 30; RO ].
+  [ Alloc 34; IfNull [34] (H 64 poll_except); Alloc 35; IfNull [35] (H 65 poll_except); Use 34; Use 35; Use 30; RO ].
 Definition select_init : list stmt := [ Use 30; RO ].
 Definition select_destroy : list stmt := [].
 
-Definition evloop_new_orig (pool : bool) (b_init b_destroy : list stmt) : list stmt :=
-  [ Alloc 0; IfNull [0] [RF]; Use 0;
-    Call (evloop_init pool) true [SetNull 0; RF];                   (* return NULL: evloop itself leaks *)
-    Call b_init false [call evloop_destroy; Free 0; SetNull 0; RF];
+Definition evloop_new_orig_gen (lb : nat) (pool : bool) (b_init b_destroy : list stmt) : list stmt :=
+  [ Alloc 0; IfNull [0] (H 66 [RF]); Use 0;
+    Call (evloop_init pool) true (H 67 [SetNull 0; RF]);            (* return NULL: evloop itself leaks *)
+    Call b_init false (H lb [call evloop_destroy; Free 0; SetNull 0; RF]);
     RO ].
-Definition evloop_new (pool : bool) (b_init b_destroy : list stmt) : list stmt :=
-  [ Alloc 0; IfNull [0] [RF]; Use 0;
-    Call (evloop_init pool) true [Free 0; SetNull 0; RF];            (* SetNull 0: the caller receives NULL *)
-    Call b_init false [call evloop_destroy; Free 0; SetNull 0; RF];
+Definition evloop_new_gen (lb : nat) (pool : bool) (b_init b_destroy : list stmt) : list stmt :=
+  [ Alloc 0; IfNull [0] (H 66 [RF]); Use 0;
+    Call (evloop_init pool) true (H 67 [Free 0; SetNull 0; RF]);     (* SetNull 0: the caller receives NULL *)
+    Call b_init false (H lb [call evloop_destroy; Free 0; SetNull 0; RF]);
     RO ].
+(* label 68: the back-end's init failed; 168: same handler for select, whose init makes no
+   acquisition and cannot fail *)
+Definition evloop_new_orig := evloop_new_orig_gen 68.
+Definition evloop_new := evloop_new_gen 68.
 Definition evloop_delete (b_destroy : list stmt) : list stmt :=
   [ IfSet 0 [ Use 0; call b_destroy; call evloop_destroy; Free 0 ] ].
 
@@ -301,28 +335,42 @@ Definition i_evloop_epoll_orig := ctor (evloop_new_orig false epoll_init epoll_d
 Definition i_evloop_epoll := ctor (evloop_new false epoll_init epoll_destroy) (evloop_delete epoll_destroy) (ev_base ++ [32; 33]).
 Definition i_evloop_poll_orig := ctor (evloop_new_orig false poll_init poll_destroy) (evloop_delete poll_destroy) (ev_base ++ [34; 35]).
 Definition i_evloop_poll := ctor (evloop_new false poll_init poll_destroy) (evloop_delete poll_destroy) (ev_base ++ [34; 35]).
-Definition i_evloop_select_orig := ctor (evloop_new_orig false select_init select_destroy) (evloop_delete select_destroy) ev_base.
-Definition i_evloop_select := ctor (evloop_new false select_init select_destroy) (evloop_delete select_destroy) ev_base.
+Definition i_evloop_select_orig := ctor (evloop_new_orig_gen 168 false select_init select_destroy) (evloop_delete select_destroy) ev_base.
+Definition i_evloop_select := ctor (evloop_new_gen 168 false select_init select_destroy) (evloop_delete select_destroy) ev_base.
 Definition i_evloop_epoll_pool_orig := ctor (evloop_new_orig true epoll_init epoll_destroy) (evloop_delete epoll_destroy) (ev_base ++ pool_owns 2 ++ [32; 33]).
 Definition i_evloop_epoll_pool := ctor (evloop_new true epoll_init epoll_destroy) (evloop_delete epoll_destroy) (ev_base ++ pool_owns 2 ++ [32; 33]).
 
 (* muggle_evloop_add_ctx: linked_list_append of the context, then the back-end's add *)
-Definition evloop_add_ctx : list stmt :=
-  [ Use 0; Call (node_alloc 12) false [RF]; Use 32; RO ].
+Definition evloop_add_ctx_on (backend_field : res) : list stmt :=
+  [ Use 0; Call (node_alloc 12) false (H 69 [RF]); Use backend_field; RO ].
+Definition evloop_add_ctx : list stmt := evloop_add_ctx_on 32.
+Definition evloop_add_ctx_pool : list stmt :=            (* ctx_list node taken from the (full) pool *)
+  [ Use 0; Use 2; Call (mpool_alloc 3) false (H 69 [RF]); Use 32; RO ].
 Definition i_evloop_add_ctx :=
   oper [call (evloop_new false epoll_init epoll_destroy)] evloop_add_ctx (evloop_delete epoll_destroy)
        (ev_base ++ [32; 33; 12]).
+
+Definition i_evloop_add_ctx_poll :=
+  oper [call (evloop_new false poll_init poll_destroy)] (evloop_add_ctx_on 34) (evloop_delete poll_destroy)
+       (ev_base ++ [34; 35; 12]).
+Definition i_evloop_add_ctx_select :=
+  oper [call (evloop_new_gen 168 false select_init select_destroy)] (evloop_add_ctx_on 30) (evloop_delete select_destroy)
+       (ev_base ++ [12]).
+Definition i_evloop_add_ctx_pool_grow :=
+  oper [call (evloop_new true epoll_init epoll_destroy)] evloop_add_ctx_pool (evloop_delete epoll_destroy)
+       (ev_base ++ pool_owns 2 ++ [32; 33; 8]).
 
 (* ================= net/socket_evloop_handle.c =================
    60 = ctx_queue (dsaa numbering with q = 61: 70 = head linked, 71 = node), 90 = mtx *)
 Definition seh_destroy : list stmt :=
   [ IfSet 90 [Use 90; Free 90; SetNull 90];
     IfSet 60 [Use 60; call (list_destroy 61); Free 60; SetNull 60] ].
-Definition seh_except : list stmt := [ call seh_destroy; RF ].
+Definition seh_except : list stmt := H 70 [ call seh_destroy; RF ].   (* muggle_socket_evloop_handle_init_except: *)
 Definition seh_init : list stmt :=
-  [ Alloc 60; IfNull [60] seh_except;
-    Call (ll_init0 61) false ([Free 60; SetNull 60] ++ seh_except);    (* muggle_queue_init(q, 0) *)
-    Alloc 90; IfNull [90] seh_except;
+  [ Alloc 60; IfNull [60] (H 71 seh_except);
+    (* label 72: muggle_queue_init(q, 0) makes no acquisition and cannot fail *)
+    Call (ll_init0 61) false (H 72 ([Free 60; SetNull 60] ++ seh_except));
+    Alloc 90; IfNull [90] (H 73 seh_except);
     RO ].
 Definition i_seh_init := ctor seh_init seh_destroy [60; 90].
 
@@ -334,21 +382,56 @@ Definition i_seh_add_ctx :=
        (seh_destroy ++ evloop_delete epoll_destroy)
        ([60; 90; 71] ++ ev_base ++ [32; 33]).
 
+(* muggle_socket_evloop_on_read, TCP_LISTEN branch (the evloop's cb_read): accept, cb_alloc a
+   context, register it.  95 = listening socket, 96 = connecting client (both made by the
+   driver), 97 = accepted descriptor, 98 = new context, 12 = ctx_list node.  A callback: void. *)
+Definition seh_on_read_accept : list stmt :=
+  [ Use 60; Get 97;
+    Alloc 98; IfNull [98] (H 78 [Free 97; RO]);
+    Use 98;
+    Call evloop_add_ctx false (H 79 [Free 98; Free 97; RO]);
+    RO ].
+(* what muggle_evloop_run does on exit for every registered context: cb_clear -> release *)
+Definition seh_clear_ctxs (fd : res) : list stmt := [ IfSet 12 [Use 98; Free fd; Free 98] ].
+Definition i_seh_on_read_accept :=
+  mkscn [call seh_init; call (evloop_new false epoll_init epoll_destroy); Alloc 95; Alloc 96]
+        seh_on_read_accept
+        (seh_clear_ctxs 97 ++ seh_destroy ++ evloop_delete epoll_destroy ++ [Free 95; Free 96])
+        ([60; 90] ++ ev_base ++ [32; 33; 95; 96; 97; 98; 12]) false false true.
+
+(* muggle_socket_evloop_on_wake (cb_wake): a context queued by muggle_socket_evloop_add_ctx is
+   registered; when registration fails it is released (closed and freed) on the spot.
+   95 = the context's socket, 98 = the context, 71 = queue node.  A callback: void; on failure
+   the handed-over context is released, so fewer blocks are live than before the call. *)
+Definition seh_on_wake : list stmt :=
+  [ Use 60; Use 90; Use 71;
+    Call evloop_add_ctx false (H 80 [Use 98; Free 95; Free 98]);
+    Free 71; SetNull 71; RO ].          (* muggle_queue_dequeue: node unlinked and freed *)
+Definition i_seh_on_wake :=
+  mkscn [call seh_init; call (evloop_new false epoll_init epoll_destroy); Alloc 95; Alloc 98; call (node_alloc 71)]
+        seh_on_wake
+        (seh_clear_ctxs 95 ++ seh_destroy ++ evloop_delete epoll_destroy)
+        ([60; 90] ++ ev_base ++ [32; 33; 95; 98; 12]) false true true.
+
+(* ================= net/socket_evloop_pipe.c : 0, 1 = the two pipe descriptors ================= *)
+Definition i_seh_pipe_init :=
+  ctor [Alloc2 0 1; IfNull [0] (H 77 [RF]); Use 0; Use 1; RO] [IfSet 0 [Free 0; SetNull 0]; IfSet 1 [Free 1; SetNull 1]] [0; 1].
+
 (* ================= log/log_async_logger.c =================
    channel 0..3 as above; the consumer thread reads the channel;
    80 = msg, 81 = payload (both freed by the consumer thread) *)
 Definition alog_init_with (chan_init : list stmt) : list stmt :=
-  [ Call chan_init true [Ret None];
+  [ Call chan_init true (H 74 [Ret None]);
     Use 3;                                   (* thread started: muggle_channel_read *)
     RO ].
 Definition alog_destroy : list stmt := [ Use 3; call chan_destroy ].
 Definition alog_log_orig : list stmt :=
-  [ Alloc 80; IfNull [80] [RO]; Use 80;
+  [ Alloc 80; IfNull [80] (H 75 [RO]); Use 80;
     Alloc 81; Use 81;                        (* vsnprintf(payload, ..) *)
     Use 3; Free 81; Free 80; RO ].
 Definition alog_log : list stmt :=
-  [ Alloc 80; IfNull [80] [RO]; Use 80;
-    Alloc 81; IfNull [81] [Free 80; RO]; Use 81;
+  [ Alloc 80; IfNull [80] (H 75 [RO]); Use 80;
+    Alloc 81; IfNull [81] (H 76 [Free 80; RO]); Use 81;
     Use 3; Free 81; Free 80; RO ].
 Definition i_alog_init_orig := mkscn [] (alog_init_with chan_init_default_orig) alog_destroy [0; 3] true false false.
 Definition i_alog_init := mkscn [] (alog_init_with chan_init_default) alog_destroy [0; 3] true false false.
@@ -370,6 +453,11 @@ Definition inst_table : list (nat * scn) :=
     (37, i_ev_signal); (38, i_evloop_epoll); (39, i_evloop_poll); (40, i_evloop_select);
     (41, i_evloop_epoll_pool); (42, i_evloop_add_ctx); (43, i_seh_init); (44, i_seh_add_ctx);
     (45, i_alog_init); (46, i_alog_log); (47, i_chan_default);
+    (48, i_array_list_insert_grow2); (49, i_ll_insert); (50, i_ll_append_pool_grow);
+    (51, i_ht_put_pool_grow); (52, i_queue_enqueue_pool_grow); (53, i_trie_insert_pool_grow);
+    (54, i_mpool_alloc_grow_capped); (55, i_evloop_add_ctx_poll); (56, i_evloop_add_ctx_select);
+    (57, i_evloop_add_ctx_pool_grow); (58, i_seh_pipe_init); (59, i_seh_on_read_accept);
+    (60, i_seh_on_wake); (61, i_chan_rmutex);
     (* transcriptions of the unchanged (defective) code *)
     (100, i_chan_mutex_orig); (103, i_ma_ring_orig); (104, i_dbuf_orig); (109, i_sowr_orig);
     (110, i_ts_orig); (118, i_avl_init_orig); (121, i_ht_init_orig); (126, i_ll_init_orig);
@@ -389,5 +477,19 @@ Definition inst_by_id (id : nat) : option scn := lookup id inst_table.
 Definition faults_of (ks : list nat) : nat -> bool := fun i => existsb (Nat.eqb i) ks.
 Definition run_inst (id : nat) (ks : list nat) : option outcome :=
   match inst_by_id id with Some sc => Some (run_scn sc (faults_of ks)) | None => None end.
+(* labels whose handler can never run: the callee makes no acquisition for these arguments *)
+Definition dead_labels : list nat := [72; 157; 168].
+Definition single_runs : list (nat -> bool) := no_fault :: map single (seq 0 16).
+Definition reached_labels (sc : scn) : list nat := flat_map (fun f => o_labels (run_scn sc f)) single_runs.
+Definition op_labels (sc : scn) : list nat := labels_of_list (s_op sc).
+Definition labels_at (id k : nat) : list nat :=       (* k = 0: no fault; k >= 1: the k-th call fails *)
+  match inst_by_id id with
+  | Some sc => o_labels (run_scn sc (match k with 0 => no_fault | S j => single j end))
+  | None => []
+  end.
+Definition op_labels_of (id : nat) : list nat :=
+  match inst_by_id id with Some sc => op_labels sc | None => [] end.
+Definition inst_ids : list nat := map fst inst_table.
+
 Definition dfail_of (id : nat) : bool :=
   match inst_by_id id with Some sc => s_dfail sc | None => false end.
